@@ -158,9 +158,9 @@ impl<'a> IndexSelector<'a> {
         let table_def_alloc = self.arena.alloc(table_def.clone());
 
         // Only the one equality that supplies the lookup key is answered by the index.
-        // Other conjuncts may constrain the same column (`id = 3 AND id < 2`), so the whole
-        // predicate is re-checked on the rows the index returns.
-        let residual: Option<&'a Expr<'a>> = Some(filter.predicate);
+        // Other conjuncts may constrain the same column (`id = 3 AND id < 2`) and stay in
+        // the residual filter.
+        let residual = residual_without_key_equality(self.arena, filter.predicate, literal_expr);
 
         let index_scan = self.arena.alloc(PhysicalOperator::SecondaryIndexScan(
             PhysicalSecondaryIndexScan {
@@ -346,6 +346,41 @@ pub fn extract_equality_predicate<'a>(expr: &'a Expr<'a>) -> Option<(&'a str, &'
                 .or_else(|| extract_equality_predicate(right))
         }
         _ => None,
+    }
+}
+
+/// The predicate without the `col = literal` conjunct whose literal is `key_literal` (the
+/// equality answered by the index lookup); None when nothing else remains.
+fn residual_without_key_equality<'a>(
+    arena: &'a Bump,
+    predicate: &'a Expr<'a>,
+    key_literal: &'a Expr<'a>,
+) -> Option<&'a Expr<'a>> {
+    match predicate {
+        Expr::BinaryOp {
+            left,
+            op: BinaryOperator::And,
+            right,
+        } => {
+            let l = residual_without_key_equality(arena, left, key_literal);
+            let r = residual_without_key_equality(arena, right, key_literal);
+            match (l, r) {
+                (Some(l), Some(r)) => Some(arena.alloc(Expr::BinaryOp {
+                    left: l,
+                    op: BinaryOperator::And,
+                    right: r,
+                })),
+                (Some(l), None) => Some(l),
+                (None, Some(r)) => Some(r),
+                (None, None) => None,
+            }
+        }
+        Expr::BinaryOp {
+            left,
+            op: BinaryOperator::Eq,
+            right,
+        } if std::ptr::eq(*left, key_literal) || std::ptr::eq(*right, key_literal) => None,
+        _ => Some(predicate),
     }
 }
 
